@@ -268,6 +268,10 @@ func init() {
 			// builder calls made after a schema was handed to its parent's constructor mean the same as before it
 			items = append(items, lateConfigItems(tier, c02Scenario, func(a *Alpha) { a.PathOpt = true })...)
 			// the issues a caller holds are exactly the violations, also after later and overlapping executions
+			// "a value that satisfies its node yields no issue" / "each failed test yields one issue" for the built-in URL
+			// test on URLs assembled from parts (the reference predicate is C20's)
+			items = append(items, Item{Name: "builtin/URLParts", MaxDevs: -1, Run: reKey("C02", "C20", c20URLParts)})
+			items = append(items, preprocItem("C02", "clean-despite-violation", "issues", "panic"))
 			return append(items, callsItems(tier, "C02", "clean-despite-violation", "depends-on-history", "nested-call-differs", "earlier-result-changed", "panic")...)
 		},
 	})
